@@ -661,4 +661,5 @@ func runConc(args []string) {
 	addRem(seed, br, want, enc)
 	keysStable(seed, br+1, want, enc)
 	streamTrim(seed, br, want, enc)
+	bpopTime(seed, br, want, enc)
 }
